@@ -14,6 +14,8 @@ use tonic::{Code, Request, Response, Status};
 mod entry_api;
 #[path = "c08_api.rs"]
 mod typed_api;
+#[path = "c08_dim.rs"]
+mod dim;
 
 // ---------------------------------------------------------------------------------------------
 // raw codec
@@ -473,6 +475,7 @@ pub fn execute(case: &str) -> String {
         }
         Some("eops") => entry_api::execute(&mut it),
         Some(k @ ("kctor" | "vctor" | "veq" | "ferr")) => typed_api::execute(k, &mut it),
+        Some(k @ ("e2x" | "peer" | "mapi")) => dim::execute(k, &mut it),
         _ => "bad-case".into(),
     }
 }
@@ -960,5 +963,8 @@ pub fn generate(tier: &str, rng: &mut Rng) -> Vec<String> {
         let stmd = gen_typed(rng, 4);
         out.push(format!("e2e {} {} {} {} {} {} {}", mode, code, hex(msg.as_bytes()), hex(&det), typed_tok(&req), typed_tok(&resp), typed_tok(&stmd)));
     }
+    // ---- dimension audit (last, so that the cases above stay what they were for a given seed):
+    // API routes, call shapes, interceptors, real transport, foreign peers
+    dim::generate(thorough, rng, &mut out);
     out
 }
